@@ -17,8 +17,8 @@ LEVEL = 'exploration'
 TECHNIQUE = 'runtime monitor: recording metric processors vs expectation from definitions + recorder-side evaluation'
 RULE = ('1-5 metric definitions per tracepoint x 4 types x labels (none, static str/int/bool/float, expressions over '
         'locals and host globals, failing expressions) x value expressions (absent, numeric, bool, non-numeric, '
-        'failing) x namespace/help/unit present or absent x 0-3 processors, 1-4 hits, fire_count 1/2/-1; via protobuf '
-        'Metric -> convert_response and via MetricDefinition; plus phases with no processor active; non-trivial = at '
+        'failing incl. SystemExit) x one name defined twice (other type / namespace) x namespace/help/unit present or absent x 0-3 processors, 1-4 hits, fire_count 1/2/-1; via protobuf '
+        'Metric -> convert_response and via MetricDefinition; plus phases with no processor active; label sets kept by a processor must not change afterwards; non-trivial = at '
         'least one call expected or a no-processor phase exercised; distinct by canonical case')
 ASSUMPTIONS = ['numeric-looking strings are not used as "non-numeric" values', 'absent help/unit may arrive as None or ""',
                'label values are compared as text']
